@@ -42,11 +42,12 @@ import (
 // result is "norace" (fails closed).
 
 type concState struct {
-	g   int
-	rng *rand.Rand
-	ue  *tglib.RanUeContext
-	ran int64
-	amf int64
+	maxLen int // longest NASEncrypt / NASMacCalculate input (SNOW 3G under the race detector costs ~30 µs per octet)
+	g      int
+	rng    *rand.Rand
+	ue     *tglib.RanUeContext
+	ran    int64
+	amf    int64
 }
 
 type concKind struct {
@@ -168,7 +169,7 @@ func concEnc(alg uint8) func(st *concState) []byte {
 	return func(st *concState) []byte {
 		var k [16]byte
 		copy(k[:], st.bytes(16))
-		buf := st.bytes(1 + st.rng.Intn(1500))
+		buf := st.bytes(1 + st.rng.Intn(st.maxLen))
 		if err := security.NASEncrypt(alg, k, st.rng.Uint32(), uint8(st.rng.Intn(32)), uint8(st.rng.Intn(2)), buf); err != nil {
 			return []byte("error")
 		}
@@ -180,7 +181,7 @@ func concMac(alg uint8) func(st *concState) []byte {
 	return func(st *concState) []byte {
 		var k [16]byte
 		copy(k[:], st.bytes(16))
-		return must(security.NASMacCalculate(alg, k, st.rng.Uint32(), uint8(st.rng.Intn(32)), uint8(st.rng.Intn(2)), st.bytes(1+st.rng.Intn(200))))
+		return must(security.NASMacCalculate(alg, k, st.rng.Uint32(), uint8(st.rng.Intn(32)), uint8(st.rng.Intn(2)), st.bytes(1+st.rng.Intn(st.maxLen))))
 	}
 }
 
@@ -319,9 +320,11 @@ func concNames(kinds []string) string {
 	return strings.Join(ns, ",")
 }
 
+var concMaxLen = 160
+
 // one goroutine's whole work: its own PRNG, its own UE context, its own messages
 func concThread(g, iters int, seed int64, kinds []string) [][32]byte {
-	st := &concState{g: g, rng: rand.New(rand.NewSource(seed*1000003 + int64(g))), ran: int64(1 + g), amf: int64(1000 + g)}
+	st := &concState{maxLen: concMaxLen, g: g, rng: rand.New(rand.NewSource(seed*1000003 + int64(g))), ran: int64(1 + g), amf: int64(1000 + g)}
 	st.ue = tglib.NewRanUeContext(fmt.Sprintf("imsi-20893%010d", g), st.ran, security.AlgCiphering128NEA0, security.AlgIntegrity128NIA2)
 	copy(st.ue.KnasEnc[:], st.bytes(16))
 	copy(st.ue.KnasInt[:], st.bytes(16))
@@ -390,6 +393,9 @@ func concParse(a []string) (G, iters int, seed int64, kinds []string) {
 // the child: runs one scenario, prints "result\t<same|diff kind>"
 func concChild(e *emitter) {
 	a := strings.Fields(os.Getenv("VERIF_CONC_ARGS"))
+	if e.thorough() {
+		concMaxLen = 1500
+	}
 	res := guard0(func() string {
 		G, iters, seed, kinds := concParse(a)
 		return concCompare(G, iters, seed, kinds)
@@ -461,7 +467,7 @@ func concRun(a []string) (string, string) {
 	if err != nil {
 		return "bad-op", ""
 	}
-	cmd := exec.Command(self, "conc-child")
+	cmd := exec.Command(self, "conc-child", "-tier", concTier)
 	cmd.Dir = dir
 	cmd.Env = append(os.Environ(), "VERIF_CONC_ARGS="+strings.Join(a[:4], " "),
 		"GORACE=log_path="+filepath.Join(dir, "race")+" halt_on_error=0 history_size=4 atexit_sleep_ms=0")
@@ -489,6 +495,15 @@ func concRun(a []string) (string, string) {
 	return fmt.Sprintf("panic child: %v", runErr), ""
 }
 
+var concTier = func() string {
+	for i, a := range os.Args {
+		if a == "-tier" && i+1 < len(os.Args) {
+			return os.Args[i+1]
+		}
+	}
+	return "quick"
+}()
+
 func concOp(a []string) string {
 	_, _, _, kinds := concParse(a)
 	if len(a) != 5 || a[4] != concNames(kinds) {
@@ -503,30 +518,42 @@ func concOp(a []string) string {
 	return res
 }
 
+// SNOW 3G costs about 10 ms per call under the race detector (mulxPow recurses 245 deep): fewer iterations
+func concHeavy(k string) bool {
+	return strings.Contains(strings.TrimLeft(k, "abcdefghijklmnopqrstuvwxyz-"), "1")
+}
+
 func concCase(e *emitter, G, iters int, kinds ...string) {
+	for _, k := range kinds {
+		if concHeavy(k) {
+			iters = (iters + 3) / 4
+			break
+		}
+	}
 	e.op("conc", strconv.Itoa(G), strconv.Itoa(iters), strconv.FormatInt(e.rng.Int63n(1<<31), 10), strings.Join(kinds, ","), concNames(kinds))
 }
 
 func concGen(e *emitter) {
+	concTier = e.tier
 	var all []string
 	for k := range concKinds {
 		all = append(all, k)
 	}
 	sort.Strings(all)
-	iters := 6
+	iters := 4
 	if e.thorough() {
-		iters = 24
+		iters = 16
 	}
-	// every kind against itself, two goroutines and many
+	// every kind against itself: two goroutines, then many
 	for _, k := range all {
-		concCase(e, 2, 4*iters, k)
+		concCase(e, 2, 3*iters, k)
 	}
 	for _, k := range all {
 		concCase(e, 8+e.rng.Intn(57), iters, k)
 	}
-	// the SNOW 3G users together (F13), all kinds together at G = 64
-	concCase(e, 2, 40*iters, "enc1")
-	concCase(e, 2, 40*iters, "enc1", "mac1")
+	// the SNOW 3G users together (F13); all kinds together at G = 64
+	concCase(e, 2, 10*iters, "enc1")
+	concCase(e, 2, 10*iters, "enc1", "mac1")
 	concCase(e, 64, iters, "prot11", "unprot11", "enc1", "mac1")
 	concCase(e, 64, iters, all...)
 	// random mixes, G = 2..64
